@@ -40,10 +40,12 @@ func (mux *ServeMux) match(q string, t uint16) Handler {
 	var handler Handler
 	for off, end := 0, false; !end; off, end = NextLabel(q, off) {
 		if h, ok := mux.z[q[off:]]; ok {
-			if t != TypeDS {
+			if t != TypeDS || off > 0 {
 				return h
 			}
-			// Continue for DS to see if we have a parent too, if so delegate to the parent
+			// q itself is a registered zone: its DS lives in the parent zone.
+			// Continue to see if we have a parent too, if so delegate to the
+			// nearest one, otherwise fall back to this handler.
 			handler = h
 		}
 	}
